@@ -29,7 +29,7 @@ KNOWN_MUST_REPRODUCE = True
 
 
 def nontrivial(kind, ins, outs):
-    if kind == "fed":
+    if kind in ("fed", "fedstop"):
         return True
     if kind == "asm15":
         return True
